@@ -785,7 +785,7 @@ func (b *byzantine) forgeBlock(src *node, hf *block.V2HeaderFormat, bf *block.V2
 			b.s.rc.Probe("forged_cvl_still_valid")
 		}
 	case "C08":
-		kinds := []string{"votes-hash-mismatch", "tx-body-swap", "random-bytes", "truncated", "byteflip", "body-of-other-block", "btp-digest-junk", "btp-digest-other-valid"}
+		kinds := []string{"votes-hash-mismatch", "tx-body-swap", "random-bytes", "truncated", "byteflip", "body-of-other-block", "btp-digest-junk", "btp-digest-other-valid", "header-field-nil", "header-field-garbage", "body-field-nil"}
 		k := kinds[t.Choose("forge.c08", len(kinds))]
 		info.kind = k
 		switch k {
@@ -832,6 +832,53 @@ func (b *byzantine) forgeBlock(src *node, hf *block.V2HeaderFormat, bf *block.V2
 				return nil, nil
 			}
 			nb.Votes = pv
+		case "header-field-nil", "header-field-garbage":
+			// structure-aware mutation: one byte-string field of a well-formed header is absent or junk.
+			// A block without proposer is still a well-formed block (the genesis block has none), so for
+			// that field nothing is demanded beyond "the node survives and whatever it accepts round-trips";
+			// every other field is bound to the body, the parent or the state, so acceptance is a violation.
+			fields := []*[]byte{&nh.Proposer, &nh.PrevID, &nh.VotesHash, &nh.NextValidatorsHash, &nh.PatchTransactionsHash, &nh.NormalTransactionsHash, &nh.LogsBloom, &nh.Result, &nh.NSFilter}
+			names := []string{"proposer", "prev-id", "votes-hash", "next-validators-hash", "patch-tx-hash", "normal-tx-hash", "logs-bloom", "result", "ns-filter"}
+			i := t.Weighted("forge.hfield", 4, 1, 1, 1, 1, 1, 1, 1, 1)
+			before := append([]byte(nil), *fields[i]...)
+			if k == "header-field-nil" {
+				*fields[i] = nil
+			} else {
+				*fields[i] = t.Bytes("forge.hfield.junk", []int{1, 20, 21, 31, 32, 33}[t.Choose("forge.hfield.len", 6)])
+			}
+			if bytes.Equal(before, *fields[i]) {
+				return nil, nil
+			}
+			info.kind = k + ":" + names[i]
+			if names[i] == "proposer" {
+				info.invalid = false
+			}
+			if names[i] == "patch-tx-hash" || names[i] == "normal-tx-hash" || names[i] == "logs-bloom" || names[i] == "ns-filter" {
+				// empty lists / zero bloom / no filter have more than one accepted encoding of "nothing"
+				info.invalid = len(before) != 0 && k == "header-field-garbage"
+			}
+		case "body-field-nil":
+			switch t.Choose("forge.bfield", 3) {
+			case 0:
+				if len(nb.Votes) == 0 {
+					return nil, nil
+				}
+				nb.Votes = nil
+				info.kind = k + ":votes"
+			case 1:
+				if len(nb.NormalTransactions) == 0 {
+					return nil, nil
+				}
+				nb.NormalTransactions = nil
+				info.kind = k + ":normal-txs"
+			default:
+				if len(nb.BTPDigest) == 0 {
+					return nil, nil
+				}
+				nb.BTPDigest = nil
+				info.kind = k + ":btp-digest"
+				info.invalid = false // an absent digest is the encoding of the zero digest
+			}
 		case "btp-digest-junk":
 			nb.BTPDigest = t.Bytes("forge.btp", 24)
 		case "btp-digest-other-valid":
